@@ -1,5 +1,6 @@
 import FastgoModel.Proofs.WriterControl
 import FastgoModel.Writer.Example
+import FastgoModel.Gen.Facts
 /-!
 # C12 — Writer.Reset makes a used Writer indistinguishable from a new one
 
@@ -33,6 +34,27 @@ theorem C12_history (L : DynLeaves MF Tok) (c : Cfg) (hreset : ∀ m, L.mfReset 
     run L c (reset L (run L c (WState.init L dst0) h1).1 dst) h2 = run L c (WState.init L dst) h2 :=
   C12_reset_fresh L c hreset _ dst h2
 
+/-! ### the tie of the Reset model to the code: regenerated facts
+
+`Gen.resetAssigns` lists, for every Reset/reset method of the working tree, the receiver fields it assigns and
+the nested resets it calls. The model's `reset` clears err, destination, processed, idx, end (= buf), tokens,
+the bit buffer and the match-finder state: the code must assign (at least) the same. -/
+
+def assignedBy (pkg fn : String) : List String :=
+  ((Fastgo.Gen.resetAssigns.find? fun r => r.1 = pkg ∧ r.2.1 = fn).map (·.2.2)).getD []
+
+theorem C12_reset_fields_complete :
+    (["err"].all (assignedBy "compress/flate/internal/deflate" "*Writer.Reset").contains) = true ∧
+    (["w", "processed", "idx", "end", "tokens", "buf.reset()", "lz77.reset()"].all
+      (assignedBy "compress/flate/internal/deflate" "*dynCompressor.Reset").contains) = true ∧
+    (["idx", "bits", "bitLen"].all (assignedBy "compress/flate/internal/deflate" "*BitBuf.reset").contains) = true ∧
+    (["table[]", "hist.reset()"].all (assignedBy "compress/flate/internal/deflate" "*level1context.reset").contains) = true ∧
+    (["table[]", "hist.reset()"].all (assignedBy "compress/flate/internal/deflate" "*level2context.reset").contains) = true ∧
+    (["w", "offset", "buf.reset()"].all (assignedBy "compress/flate/internal/deflate" "*huffmanOnly.Reset").contains) = true ∧
+    (["w", "err", "wroteHeader", "closed", "scratch", "digest.Reset()", "compressor.Reset()"].all
+      (assignedBy "compress/zlib" "*Writer.Reset").contains) = true := by
+  decide
+
 /-! Non-vacuity: the toy leaves satisfy the contract; a history that leaves data pending and a failed
     destination behind, then Reset, then a new stream. -/
 example : ∀ m, toyLeaves.mfReset m = toyLeaves.mfInit := fun _ => rfl
@@ -51,3 +73,4 @@ end Fastgo.Writer
 #print axioms Fastgo.Writer.C12_reset_state
 #print axioms Fastgo.Writer.C12_reset_fresh
 #print axioms Fastgo.Writer.C12_history
+#print axioms Fastgo.Writer.C12_reset_fields_complete
